@@ -17,6 +17,8 @@ CHECKS = {
          "request field values from the shape lattice (the full 32-bit product is the component-level part); one leecher", MC, "looplab", "3/C03"),
  "C04": ("model_checking", "explicit enumeration, on the real torrent event loop with an explorer-owned select, of every command/mutation sequence up to the stated depth from three initial states, plus every execution with one race deviation; status truthfulness, command effect, crash/hang and convergence oracles in every state",
          "one torrent, one honest seed, one tracker; handlers atomic (C20); silent corruption while stopped is unknowable to the client until the next verification and is excluded from the truthfulness oracle", MC, "looplab", "3/C04"),
+ "C05": ("fault_enumeration", "download histories with resume ticks / stop+start / verify at enumerated positions are recorded once (data writes, bbolt page writes, fdatasyncs, file growth); for every prefix of the merged log, every torn variant of the in-flight data write, every subset of unsynced db page writes and the deletion subsets of files at restart, both images are rebuilt and a fresh session is opened, started and drained on the real event loop; no claimed piece may lack its verified content",
+         "data files durable at WriteAt return (O_SYNC asserted on the real storage); torn writes inside one db page and reordering across fdatasync not modelled; last 4 unsynced db writes permuted", "crash-point enumeration (exhaustive over the recorded write history) with recovery on the real implementation", "crashlab", "3/C05"),
  "C07": ("exploration", "every name / path-component string up to the stated length over a hostile byte alphabet plus a tricky list, in single- and multi-file torrents, both data-dir modes and utf-8 overrides: pure confinement oracle on every accepted Info, real allocator over the real file storage with a sentinel tree diff, tar extraction of hostile archives, and RemoveTorrent",
          "Linux path semantics; strings longer than the bound only through the tricky list; pre-existing symlinks inside the data dir not modelled", ENUM, "enum", "3/C07"),
  "C11": ("exploration", "every message kind over a boundary lattice of field values, sequences of up to 3-4 messages, written by the real PeerWriter and compared byte for byte with an independent reference encoder, then read back by the real PeerReader under every 1-cut / 2-cut fragmentation of the cut lattice and byte-at-a-time; upload counter and handshake layout included",
@@ -31,16 +33,21 @@ CHECKS = {
          "tracker scripts of at most two phases; one torrent; interval discipline judged on the virtual clock", "exhaustive enumeration of operation sequences on the real actors under virtual time + stateless model checking of the event loop", "actorlab", "3/C15"),
  "C16": ("model_checking", "tier index machine explored by BFS to a fixpoint (all answer vectors, up to 2-4 concurrent calls interleaved at every point); every announce answer sequence up to the bound on the real PeriodicalAnnouncer under virtual time; the real UDP transport with 2-3 concurrent requests under every cancel/reply/expiry order; HTTP and UDP reply byte lattices",
          "announcer back-off jitter bounded not pinned; at most 3 requests per UDP destination; no DNS", "explicit-state BFS to fixpoint + exhaustive operation-sequence enumeration on the real actors under virtual time (synctest)", "actorlab", "3/C16"),
+ "C17": ("model_checking", "ResourceManager: BFS with state merging over every request/cancel/notify/release/stats/close order of 2-3 clients under synctest quiescence (no caller may stay blocked); piece cache, semaphore, address list, peer-writer upload queue and piece-downloader pipeline: every operation sequence up to the stated depth against counting models",
+         "one stimulus at a time at the manager; session-level caps (connections, rate limits) are not part of this component-level check", "explicit-state BFS / exhaustive operation sequences on the real components under virtual time", "actorlab", "3/C17"),
  "C18": ("model_checking", "interval tree vs linear scan for every list of <=4(5) intervals over two endpoint lattices and every query point; Blocklist for every list of <=3 lines of a 49-line universe and every Reload sequence; AddrList for every push/pop/reset sequence up to depth 6(7) against a reference bounded priority set; resolver on blocked literals",
          "peerpriority.Calculate taken as given; eviction rule modelled as implemented; session-level dial admission is checked separately (looplab)", ENUM, "enum", "3/C18"),
  "C08": ("model_checking", "torrent in each state {metadata unknown, allocating, verifying, downloading, seeding} x every sequence of <= depth attacker messages over 42 hostile but well-framed messages, under both extreme resolutions of racing selects; crash/hang oracles in every state and completion of the honest peer's exchange afterwards",
          "byte-level framing attacks are the reader-level part; one attacker and one honest peer", MC, "looplab", "3/C08"),
+ "C09": ("model_checking", "explicit-state BFS with state dedup over the real piece picker driven within the torrent's call contract (connect, have, bitfield, allowed-fast, choke, unchoke, snub, disconnect, pick, block completion, write ok, hash failure, web-seed pick/progress/steal/error) for 1-3 peers, 3-4 pieces, 0-2 web seeds, rarest/sequential, end-game limit 1-2; shadow-matrix oracles after every operation; to a fixpoint where the space closes, else to a stated state cap",
+         "configurations that hit their state cap are breadth-first complete only to that cap (listed in the evidence); web-seed HTTP loop modelled from urldownloader.Run", "explicit-state BFS to fixpoint on the real component (state reload through an in-package dump/load hook)", "actorlab", "3/C09"),
  "C10": ("model_checking", "every layout/mode configuration run under the eager fair schedule and every single deviation of it on the real event loop; completion with byte-identical files is required in each",
          "bounded liveness under the default continuation; other parties' misbehaviour limited to the stated deviation alphabet", MC, "looplab", "3/C10"),
 }
 ENGINES = [
  {"name": "enum", "path": "engine/geom, engine/paths, ... (E4 packages)", "serves_properties": [], "kind_free_text": "bounded-exhaustive enumeration of inputs / operation sequences against a reference model, on the real code"},
  {"name": "actorlab", "path": "engine/trk16, engine/limits, engine/picker, ... (E2 packages)", "serves_properties": [], "kind_free_text": "one real actor (announcer, UDP transport, tier, resource manager, picker) with scripted, gated environment under virtual time; BFS to fixpoint or exhaustive operation sequences"},
+ {"name": "crashlab", "path": "engine/crash (+ patched bbolt copy via -modfile)", "serves_properties": [], "kind_free_text": "crash-point enumeration: recorded write/sync history -> all prefixes x torn writes x unsynced subsets -> recovery executions in looplab"},
  {"name": "looplab", "path": "engine/lab + engine/core + engine/vnet + engine/vrand + hooks-lab", "serves_properties": [], "kind_free_text": "explicit-state exploration of the real torrent event loop inside a synctest bubble: explorer-owned select, in-memory network, recording storage, scripted peers/trackers; deviation-bounded DFS over worker subprocesses"},
 ]
 NOT_BUILT = "check not built yet in this session (planned, see DESIGN.md section 3); not a statement that model checking cannot apply"
